@@ -363,8 +363,7 @@ def resolver_contract():
         if parts is None or resolved is None:
             return z3.BoolVal(False)
         lc.st.assume(SP.fold_defn(parts, lc.i))      # definition of the spec fold at the current prefix
-        lc.st.assume(prefix_ext(parts, lc.i))        # sequence lemma (seq_lemmas): parts[:i+1] == parts[:i] ++ [parts[i]]
-        return resolved == SP.FOLD(z3.SubSeq(parts, 0, lc.i))
+        return resolved == SP.FOLDP(parts, lc.i if z3.is_expr(lc.i) else z3.IntVal(lc.i))
 
     b0, t0 = _param_name(ZIPU, "resolve_part_name", 0) or "base_dir", _param_name(ZIPU, "resolve_part_name", 1) or "target"
     return FnContract(
